@@ -104,7 +104,8 @@ fn main() {
     //     spherical symbol.  Only there does a symbol with trivial symmetry group exist (all v = 1,
     //     curvature exactly 4, the upper end of the spherical window).
     //     one chamber: (v01, v12); two chambers: index of the D-set among dsets(2,2) and its v's
-    let one: &[(usize, usize)] = if th { &[(3, 3), (3, 4), (4, 3), (3, 5)] } else { &[(3, 3), (4, 3)] };
+    // (3,5) — 120 flags, 32 orbits — is left out: the oracle's candidate set there has ~10^7 vectors
+    let one: &[(usize, usize)] = if th { &[(3, 3), (3, 4), (4, 3)] } else { &[(3, 3), (4, 3)] };
     for &(a, b) in one {
         let t1 = dsets(2, 1, true, true, false).remove(0);
         let mut s = all_vs(&t1, &[a]).remove(0);
